@@ -449,6 +449,10 @@ func (w *eWorld) request(h *vHarness, tag string, gc vaa.ChainID, ga vaa.Address
 	}
 	w.mu.Lock()
 	obs0 := len(w.obs)
+	before := map[string]bool{}
+	for dg := range w.pubs {
+		before[dg] = true
+	}
 	w.mu.Unlock()
 	// ---- what the request asks for: the conversion functions called directly, message by message, up to the first failure
 	var want []*vaa.VAA
@@ -564,13 +568,23 @@ func (w *eWorld) request(h *vHarness, tag string, gc vaa.ChainID, ga vaa.Address
 	}
 	// ---- wait until every node has broadcast a quorum VAA for every injected message
 	quorum := len(w.gs.Keys)*2/3 + 1
+	strayBreak := false
 	deadline := time.Now().Add(40 * time.Second)
 	if w.late {
 		deadline = time.Now().Add(6 * time.Second)
 	}
 	for {
-		missing := 0
+		missing, stray := 0, 0
 		w.mu.Lock()
+		wanted := map[string]bool{}
+		for _, v := range want {
+			wanted[hex.EncodeToString(v.SigningMsg().Bytes())] = true
+		}
+		for dg, by := range w.pubs {
+			if !before[dg] && !wanted[dg] {
+				stray += len(by)
+			}
+		}
 		for _, v := range want {
 			dg := hex.EncodeToString(v.SigningMsg().Bytes())
 			for i := range w.nodes {
@@ -581,6 +595,12 @@ func (w *eWorld) request(h *vHarness, tag string, gc vaa.ChainID, ga vaa.Address
 		}
 		w.mu.Unlock()
 		if missing == 0 {
+			break
+		}
+		if stray >= len(want)*len(w.nodes) && stray > 0 {
+			// every node broadcast as many quorum VAAs as messages were injected — under digests the request does not convert to
+			mon.add("e2e:other", "the nodes broadcast quorum VAAs whose digests are not the digests of the VAAs the request converts to (%d such broadcasts): what was injected / signed is not what the conversion functions return", stray)
+			strayBreak = true
 			break
 		}
 		if time.Now().After(deadline) {
@@ -627,7 +647,7 @@ func (w *eWorld) request(h *vHarness, tag string, gc vaa.ChainID, ga vaa.Address
 		}
 		sort.Strings(rec.Published)
 		for i, c := range rec.ByNode {
-			if c == 0 {
+			if c == 0 && !strayBreak {
 				mon.add("e2e:liveness", "%s: all three operators injected the request and every observation was delivered, but node %d did not broadcast a quorum VAA within 40 s (digest %s)", m.Kind, i, dg[:16])
 			}
 			if c > 1 {
@@ -664,11 +684,7 @@ func (w *eWorld) request(h *vHarness, tag string, gc vaa.ChainID, ga vaa.Address
 				f = h.c.tb
 			}
 			ct := &eContract{chain: local, recvSeq: new(big.Int).SetUint64(m.Seq), govChain: int64(gc), govAddr: ga[:], gsIndex: int64(w.gs.Index), guardians: guardians}
-			skip := ""
-			if m.Kind == "destroy" && len(m.Seqs.list()) == 0 {
-				skip = "length > 0"
-			}
-			run, newSeq, probs := h.c.execute(f, eEntry[m.Kind], b, ct, skip)
+			run, newSeq, probs := h.c.execute(f, eEntry[m.Kind], b, ct, "") // the contract's own guards included (an empty sequence list aborts)
 			for _, pr := range probs {
 				mon.add("ral:e2e:"+pr, "%s", pr)
 			}
